@@ -255,6 +255,40 @@ func run(r *eng.Runner) {
 		}
 	}
 
+	// a default is evaluated when it is needed: a failing default expression of a parameter the caller passes is harmless
+	r.Group("default-evaluated-when-needed", "prog.case", "macros whose first / second / both parameters have a default that fails when evaluated (a division by zero), called with 0..2 arguments, local and imported: the call fails exactly if a failing default is needed")
+	{
+		boom := Bin{Op: "/", L: Lit{V: IntV(1)}, R: Lit{V: IntV(0)}}
+		for mask := 1; mask < 4; mask++ {
+			params := []Param{{Name: "p", Default: lits("dp")}, {Name: "q", Default: lits("dq")}}
+			if mask&1 != 0 {
+				params[0].Default = boom
+			}
+			if mask&2 != 0 {
+				params[1].Default = boom
+			}
+			for na := 0; na <= 2; na++ {
+				for route := 0; route < 2; route++ {
+					m := Macro{Name: "mac", Params: params, Body: macroBody([]string{"p", "q"})}
+					cargs := []Expr{lits("A"), v("n")}[:na]
+					files := map[string][]Node{}
+					main := []Node{m}
+					if route == 1 {
+						m.Export = true
+						files["/lib"] = []Node{m}
+						main = []Node{Import{File: "lib", Names: []ImportName{{Name: "mac"}}}}
+					}
+					files["/main"] = append(main, T("("), O(Call{Name: "mac", Args: cargs}), T(")"))
+					if c, ok := prog.BuildTwice(files, ctx, ctx2, nil, "macro-default", fmt.Sprintf("failing defaults=%02b args=%d route=%d", mask, na, route), false); ok {
+						r.Do(c)
+					} else {
+						r.AddExtra("programs_outside_fragment", 1)
+					}
+				}
+			}
+		}
+	}
+
 	// ---- which names an import binds ----
 	r.Group("import-names", "prog.case", "an import binds exactly the names it lists (the alias, not the original name, when one is given): next to a local macro / a set variable / a macro of another library with the original name, defined before or after the import; names of the library that are not listed stay unbound")
 	{
@@ -309,6 +343,11 @@ func run(r *eng.Runner) {
 			{m, If{Conds: []Expr{call}, Bodies: [][]Node{{T("truthy")}}}},
 			{m, Autoescape{On: false, Body: []Node{O(call)}}},
 		}
+		// the result of one macro handed to another macro is still markup there
+		outer := Macro{Name: "outer", Params: []Param{{Name: "y"}, {Name: "z", Default: Call{Name: "mac", Args: []Expr{lits("d")}}}}, Body: []Node{T("<o>"), O(v("y")), T("|"), O(v("z")), T("</o>")}}
+		progs = append(progs, []Node{m, outer, O(Call{Name: "outer", Args: []Expr{call}})}, []Node{m, outer, O(Call{Name: "outer", Args: []Expr{call, call}})},
+			[]Node{m, outer, Set{Name: "r", E: call}, O(Call{Name: "outer", Args: []Expr{v("r")}})})
+		progs = append(progs, []Node{m, FirstOf{Args: []Expr{v("missing"), call}}})
 		for i, p := range progs {
 			c, ok := prog.BuildTwice(map[string][]Node{"/main": p}, ctx, ctx2, nil, "macro-markup", fmt.Sprint("markup", i), false)
 			if ok {
@@ -430,7 +469,6 @@ func init() {
 		Rule: "bounded-exhaustive: every macro signature up to the parameter bound with every subset of defaults, called with every argument count 0..n+1 and argument kinds (all tuples up to 2 arguments, rotating representatives above), through a local definition, an import and an aliased import, compared with the reference binding model (too many arguments = execution error; literal markup raw, tainted argument escaped once). " +
 			"Runaway recursion: every call graph over up to 3 macros without a base case and every placement of the macros in the main or an imported file is executed in a fresh sub-process and must end in an execution error (process death = violation). All cases non-trivial.",
 		Assumptions: []string{
-			"passing the markup result of one macro as an argument to another is not judged",
 		},
 		Run: run,
 	})
